@@ -131,10 +131,20 @@ func noFileOnWay(ref *reftree.Node, segs []string) bool {
 // the statement (the backends may then legitimately differ; only "no panic,
 // nothing outside changed" is asserted and the history ends).
 func zzStep(h *zzHost, disk, mem filesystem.Filespace, ref *reftree.Node) bool {
-	op := nd.Choose("op", nd.Param("OPS", oNOps))
+	var op int
+	if zzOpSet != nil {
+		op = zzOpSet[nd.Choose("opidx", len(zzOpSet))]
+	} else {
+		op = nd.Choose("op", nd.Param("OPS", oNOps))
+	}
 	name := zzOp[op]
 	L := nd.Param("L", 3)
-	p := nd.StringUpTo("p", L)
+	var p string
+	if zzTemplates {
+		p = zzTemplatePath("path")
+	} else {
+		p = nd.StringUpTo("p", L)
+	}
 	for i := 0; i < len(p); i++ {
 		nd.Assume(p[i] != 0) // NUL cannot be part of a host path
 	}
@@ -281,7 +291,12 @@ func zzStep(h *zzHost, disk, mem filesystem.Filespace, ref *reftree.Node) bool {
 			}
 		}
 	case oCopyFile, oCopyDir, oCopy:
-		q := nd.StringUpTo("q", L)
+		var q string
+		if zzTemplates {
+			q = zzTemplatePath("dest")
+		} else {
+			q = nd.StringUpTo("q", L)
+		}
 		for i := 0; i < len(q); i++ {
 			nd.Assume(q[i] != 0)
 		}
@@ -325,6 +340,60 @@ func zzStep(h *zzHost, disk, mem filesystem.Filespace, ref *reftree.Node) bool {
 	return true
 }
 
+// zzTemplates / zzOpSet: the two-step harness draws paths from structural
+// templates over the existing names and one fresh symbolic name, and its
+// first operation from the mutating kinds only.
+var zzTemplates bool
+var zzOpSet []int
+
+func zzTemplatePath(label string) string {
+	fresh := func() string {
+		if nd.Param("SYMNAME", 0) == 0 {
+			return "n" // a name that does not exist yet
+		}
+		n := nd.String("name", 1)
+		nd.Assume(nd.And(nd.And(n != "/", n != "."), n[0] != 0))
+		return n
+	}
+	switch nd.Choose(label, nd.Param("PT", 7)) {
+	case 0:
+		return "a/f"
+	case 1:
+		return fresh()
+	case 2:
+		return "a"
+	case 3:
+		return "g"
+	case 4:
+		return "a/" + fresh()
+	case 5:
+		return "a/d"
+	default:
+		return "a/d/h"
+	}
+}
+
+// ZZVerifC02Pairs: two-operation histories on both back ends: a mutating
+// operation (write, mkdir, remove, recursive remove, stream write, copies)
+// followed by any operation, over the existing nodes and fresh names - so
+// that the second operation meets the state the first one left on disk.
+func ZZVerifC02Pairs() {
+	h := zzNewHost()
+	defer h.cleanup()
+	disk, err := diskfs.NewFilespace(h.base + "/r")
+	nd.Assume(err == nil)
+	mem, _ := memfs.NewFilespace()
+	ref := reftree.NewRoot()
+	zzPrelude([]filesystem.Filespace{disk, mem}, ref)
+	zzTemplates = true
+	zzOpSet = []int{oWriteFile, oMkdirAll, oRemove, oRemoveAll, oWriter, oCopyFile, oCopyDir, oCopy}[:nd.Param("PO1", 8)]
+	if zzStep(h, disk, mem, ref) {
+		zzOpSet = []int{oWriteFile, oMkdirAll, oRemove, oRemoveAll, oWriter, oReadFile, oReadDir, oQuery, oLstat, oReader, oCopyFile, oCopyDir, oCopy}[:nd.Param("PO2", 13)]
+		zzStep(h, disk, mem, ref)
+	}
+	nd.Reach("C02/pairs-end")
+}
+
 // ZZVerifC02Diff: K symbolic operations applied to a disk filespace (over the
 // host model) and to the memory filespace, both holding the same small tree.
 func ZZVerifC02Diff() {
@@ -354,13 +423,18 @@ func ZZVerifC02View() {
 	mem, _ := memfs.NewFilespace()
 	ref := reftree.NewRoot()
 	zzPrelude([]filesystem.Filespace{disk, mem}, ref)
-	dv, e1 := disk.Filespace("a")
-	mv, e2 := mem.Filespace("a")
+	// the view is rooted at a sub-directory or at the filespace root itself
+	vroot := []string{"a", "."}[nd.Choose("view-root", 2)]
+	dv, e1 := disk.Filespace(vroot)
+	mv, e2 := mem.Filespace(vroot)
 	nd.Assert(e1 == nil && e2 == nil, "C02/view-opens")
 	if e1 != nil || e2 != nil {
 		return
 	}
-	sub := ref.Find([]string{"a"})
+	sub := ref
+	if vroot == "a" {
+		sub = ref.Find([]string{"a"})
+	}
 	if zzStep(h, dv, mv, sub) {
 		nd.Assert(reftree.Same(disk, ref, nil), "C02/view-parent-disk-tree")
 	}
